@@ -22,7 +22,8 @@ from props.c08 import addr_of, addr_int, lpv, spv, frame, mid_of, W, HALF, ITS_E
 from flexstack.geonet.basic_header import BasicHeader
 from flexstack.geonet.common_header import CommonHeader
 from flexstack.geonet.gn_address import ST
-from flexstack.geonet.service_access_point import HeaderType, TopoBroadcastHST, LocationServiceHST
+from flexstack.geonet.service_access_point import (HeaderType, TopoBroadcastHST, LocationServiceHST, GNDataRequest,
+                                                    PacketTransportType)
 from flexstack.geonet.tsb_extended_header import TSBExtendedHeader
 from flexstack.geonet.gbc_extended_header import GBCExtendedHeader
 from flexstack.geonet.guc_extended_header import GUCExtendedHeader
@@ -43,10 +44,12 @@ TRUSTED = [
     "threading.Timer is replaced by a virtual timer fired by the harness (arbitrary expiry points)",
 ]
 ASSUMPTIONS = [
+    "the LS retransmit timer (_ls_retransmit: resend / give up) is not modelled and never fired by the harness; what "
+    "gn_data_request_guc does with a re-submitted request (sequence number, greedy forwarding, frame) is outside the model "
+    "(action origguc)",
     "known finding C06-KF1: the duplicate packet list lives in the source's location table entry; when that entry expires "
     "(position timestamp + itsGnLifetimeLocTE < clock) the list is lost - in particular immediately for a packet whose SO "
     "position vector is already older than the LocTE lifetime - and a replay of the same (SO,SN) is delivered/forwarded again",
-    "coordinates in generated packets are non-negative",
 ]
 
 MULTI = ("tsb", "gbc", "gac", "guc", "ls_request", "ls_reply")
@@ -193,6 +196,16 @@ class Station:
             self.greedy_calls.append(v)
             return v
         self.r.gn_geometric_function_f, self.r.gn_greedy_forwarding = spy_f, spy_g
+        greq, glsr = self.r.gn_data_request_guc, self.r.gn_ls_request
+
+        def spy_greq(request, *a, **k):
+            self.log.append(("gucreq", request.destination.encode_to_int()))
+            return greq(request, *a, **k)
+
+        def spy_lsr(sought, buffered_request=None):
+            self.log.append(("lsreq", sought.encode_to_int()))
+            return glsr(sought, buffered_request)
+        self.r.gn_data_request_guc, self.r.gn_ls_request = spy_greq, spy_lsr
 
     def set_now(self, now):
         self.clock.ms = now + ITS_EPOCH_MS - 5000
@@ -209,15 +222,45 @@ class Station:
             self.r.ego_position_vector = LongPositionVector(gn_addr=old.gn_addr, tst=old.tst, latitude=lat, longitude=lon,
                                                             pai=bool(pai), s=old.s, h=old.h)
 
+    def lsreq(self, a, req, now):
+        """the station itself starts / joins a Location Service for `a` (source operations, §10.3.7.1.2)"""
+        self.set_now(now)
+        self.log = []
+        request = GNDataRequest(packet_transport_type=PacketTransportType(header_type=HeaderType.GEOUNICAST),
+                                destination=addr_of(a), data=b"wait") if req else None
+        with rs.quiet():
+            self.r.gn_ls_request(addr_of(a), request)
+        entries = self.log
+        self.log = []
+        return self.canon(entries, None), entries, f"lsreq {a} {int(bool(req))}"
+
+    def dump(self):
+        """location table in the format of the model's `Table.str` (same as the C08 correspondence)"""
+        rows = []
+        for gn, e in self.r.location_table.loc_t.items():
+            pv = e.position_vector
+            rows.append((gn.encode_to_int(), f"{gn.encode_to_int()}:{pv.tst.msec}:{pv.latitude}:{pv.longitude}:"
+                         f"{1 if e.is_neighbour else 0}:{1 if e.ls_pending else 0}:" + ",".join(str(x) for x in e.dpl_deque)))
+        rows.sort()
+        return " ".join(r[1] for r in rows) if rows else "-"
+
     def canon(self, entries, d):
         out = []
-        for e in entries:
+        for idx, e in enumerate(entries):
             if e[0] == "send":
                 q = decode(e[1])
                 if q["so"] == self.self_addr and q["kind"] == "ls_reply":
                     out.append(f"reply {q['de']}")
+                elif q["so"] == self.self_addr and q["kind"] == "ls_request":
+                    out.append(f"lssend {q['de']}")
+                elif q["so"] == self.self_addr and q["kind"] == "guc":
+                    pass     # originated by the GUC source operations for a re-submitted request (`origguc`)
                 else:
                     out.append("send " + pkt_str(q))
+            elif e[0] == "gucreq":
+                nxt = entries[idx + 1] if idx + 1 < len(entries) else None
+                if not (nxt is not None and nxt[0] == "lsreq"):
+                    out.append(f"origguc {e[1]}")
             elif e[0] == "deliver":
                 ind = e[1]
                 so = ind.source_position_vector.gn_addr.encode_to_int() if ind.source_position_vector else -1
@@ -292,11 +335,47 @@ class StationOracle:
         self.pvs = {}         # addr -> list of (T, lat, lon) received as SO PV
         self.count = {}       # (so, sn) -> [deliveries, forwards]
         self.bad = []
+        self.ls_wait = {}     # sought address -> GUC requests waiting for its LS reply
+        self.pdr = {}         # so -> [PDR (bytes/s, annex B.2 EMA), position timestamp of the last update]
+        self.pdr_skips = 0
+        self.pdr_checked = 0
+        self.pdr_bad = []
+
+    EXT_LEN = {"beacon": 24, "shb": 28, "tsb": 28, "gbc": 44, "gac": 44, "guc": 48, "ls_request": 36, "ls_reply": 48}
+
+    def lsreq(self, a, req):
+        if req:
+            self.ls_wait[a] = self.ls_wait.get(a, 0) + 1
+
+    def pdr_ref(self, fr, d, was_alive, pdr_bit):
+        """annex B.2: PDR <- beta * PDR + (1 - beta) * size / (time since the last update), beta = 0.9, time taken from the
+        position timestamps (as the code does), on every packet that updates the source's entry; a new entry starts with
+        PDR 0 and timestamp 0.  Compares the gate `PDR > itsGnMaxPacketDataRate * 1000` with the bit recorded from the run."""
+        so = d["so"]
+        if not was_alive or so not in self.pdr:
+            self.pdr[so] = [0.0, 0]
+        st = self.pdr[so]
+        dt = ((d["tst"] - st[1]) % W) / 1000.0
+        st[1] = d["tst"]
+        size = len(fr) - 12 - self.EXT_LEN[d["kind"]] + 12
+        if dt > 0:
+            st[0] = 0.9 * st[0] + 0.1 * size / dt
+        alive_after = so in self.loct.ent
+        thr = self.cfg["pdr_max"] * 1000
+        if pdr_bit is None:
+            return
+        if alive_after and abs(st[0] - thr) <= 1e-9 * max(1.0, thr):
+            self.pdr_skips += 1
+            return
+        self.pdr_checked += 1
+        ref = int(alive_after and st[0] > thr)
+        if ref != pdr_bit:
+            self.pdr_bad.append(f"PDR gate of {so}: reference {ref} (PDR {st[0]:.3f} B/s, limit {thr}), recorded from the run {pdr_bit}")
 
     def flag(self, what, kf=None):
         self.bad.append((what, kf))
 
-    def rx(self, fr, d, T_so, now, entries):
+    def rx(self, fr, d, T_so, now, entries, pdr_bit=None):
         so, sn, kind = d["so"], d["sn"], d["kind"]
         key = (so, sn)
         acts = [e[0] for e in entries]
@@ -315,6 +394,7 @@ class StationOracle:
         ep = self.epoch[so]
         self.loct.pkt(kind, so, T_so, d["lat"], d["lon"], sn, now)
         if kind not in MULTI:
+            self.pdr_ref(fr, d, was_alive, pdr_bit)
             return
         win = self.window.setdefault(so, [])
         hit = next((x for x in win if x[0] == sn), None)
@@ -336,13 +416,28 @@ class StationOracle:
             win.remove(hit)
         win.append((sn, ep))
         del win[:-self.L]
+        self.pdr_ref(fr, d, was_alive, pdr_bit)
         # accepted (or re-accepted under KF1): judge the actions
         c = self.count.setdefault(key, [0, 0])
         sends = [e for e in entries if e[0] == "send"]
         own = [e for e in sends if decode(e[1])["so"] == self.me]
         sends = [e for e in sends if e not in own]
-        if own and not (kind == "ls_request" and mid_of(d["de"]) == mid_of(self.me)):
+        to_me = mid_of(d["de"]) == mid_of(self.me)
+        if own and not (kind in ("ls_request", "ls_reply") and to_me):
             self.flag(f"station originated a packet while handling a {kind}")
+        resub = [i for i, e in enumerate(entries) if e[0] == "gucreq"]
+        if kind == "ls_reply" and to_me:
+            # §10.3.7.1.4: every GUC request that waited for this source is re-submitted exactly once
+            waiting = self.ls_wait.pop(so, 0)
+            if len(resub) != waiting or any(e[1] != so for e in entries if e[0] == "gucreq"):
+                self.flag(f"LS reply of {so} at the requester re-submitted {len(resub)} request(s), {waiting} were waiting")
+            back = sum(1 for i in resub if i + 1 < len(entries) and entries[i + 1][0] == "lsreq")
+            if back:
+                self.ls_wait[so] = back      # the entry had expired at once: back to the Location Service
+            if sends or [e for e in entries if e[0] in ("deliver", "arm")]:
+                self.flag("LS reply addressed to this station was delivered / forwarded")
+        elif resub:
+            self.flag(f"{kind} re-submitted buffered GUC requests")
         delivers = [e for e in entries if e[0] == "deliver"]
         arms = [e for e in entries if e[0] == "arm"]
         c[0] += len(delivers)
@@ -412,17 +507,20 @@ def gen_single(rng, n_ops):
     lifetime_s = rng.choice([2, 5, 20])
     L = lifetime_s * 1000
     cfg = dict(lifetime_s=lifetime_s, dpl=rng.choice([1, 2, 3, 4, 8, 16, rng.randrange(1, 17)]), cbf=rng.randrange(2),
-               pdr_max=rng.choice([10**9, 10**9, 10**9, 0]),
+               pdr_max=rng.choice([10**9, 10**9, 10**9, 0, 1, 20, 200]),
                base=rng.choice([rng.randrange(10**9, 10**12), rng.randrange(3, 99) * W - rng.randrange(0, 3 * L)]))
     me = addr_int(1)
     n_src = rng.randrange(2, 6)
     srcs = [addr_int(10 + i) for i in range(n_src)]
-    pos = {a: (EGO[0] + rng.randrange(0, 60000), EGO[1] + rng.randrange(0, 60000)) for a in srcs}
+    # where the scene is: Barcelona, or around / south-west of (0, 0) so that latitudes and longitudes are negative
+    EGO = rng.choice([globals()["EGO"], globals()["EGO"], (12000, -25000), (-337000000, -705000000)])
+    FAR = (EGO[0] + 200000, EGO[1] + 200000)
+    pos = {a: (EGO[0] + rng.randrange(-30000, 60000), EGO[1] + rng.randrange(-30000, 60000)) for a in srcs}
     others = srcs + [addr_int(10, st=ST.CYCLIST)]
     pos[others[-1]] = pos[srcs[0]]
     own = [me, addr_int(1, st=ST.BUS)]
     third = addr_int(77)
-    next_sn = {a: rng.choice([0, 65530, rng.randrange(65536)]) for a in others + own}
+    next_sn = {a: rng.choice([0, 65530, rng.randrange(65536)]) for a in others + own + [third]}
     ops, sent, now = [], [], cfg["base"]
     for _ in range(n_ops):
         x = rng.random()
@@ -435,6 +533,33 @@ def gen_single(rng, n_ops):
         if rng.random() < 0.05:
             # the station moves (inside <-> far outside the areas used below) or loses / regains position accuracy
             ops.append(["ego", *rng.choice([EGO, FAR, (EGO[0] + 30000, EGO[1])]), rng.randrange(2), rng.choice(["swap", "tpv"]), now])
+            continue
+        if rng.random() < 0.04:
+            # Location Service at the requester: the station asks for `a` (with / without GUC requests to be buffered), other
+            # traffic may pass, the LS reply of `a` arrives (fresh, stale or repeated), the station may ask again
+            a = rng.choice(srcs + [third])
+            for _ in range(rng.randrange(1, 4)):
+                ops.append(["lsreq", a, rng.randrange(2), now])
+            for _ in range(rng.randrange(0, 3)):
+                now += rng.randrange(0, 200)
+                b = rng.choice(srcs)
+                fr = frame("tsb", lpv(b, now, *pos[b]), sn=next_sn[b], rhl=rng.choice([1, 3]), mhl=10, payload=b"x")
+                next_sn[b] = (next_sn[b] + 1) % 65536
+                sent.append((fr.hex(), [b, fr and decode(fr)["sn"]], now))
+                ops.append(["rx", fr.hex(), now, now])
+            for _ in range(rng.randrange(1, 3)):
+                now += rng.randrange(0, 300)
+                T = now - rng.choice([0, 10, 500, L - 1, L + 1, 2 * L])
+                la, lo = pos.get(a, EGO)
+                fr = frame("ls_reply", lpv(a, T, la, lo), sn=next_sn[a], rhl=rng.choice([1, 5, 10]), mhl=10,
+                           de=spv(rng.choice([me, me, me, own[1], third]), now, -7, 8))
+                next_sn[a] = (next_sn[a] + 1) % 65536
+                sent.append((fr.hex(), [a, decode(fr)["sn"]], T))
+                ops.append(["rx", fr.hex(), T, now])
+                if rng.random() < 0.4:
+                    ops.append(["rx", fr.hex(), T, now + 1])
+                if rng.random() < 0.3:
+                    ops.append(["lsreq", a, rng.randrange(2), now])
             continue
         if cfg["cbf"] and rng.random() < 0.2:
             # contention scenario: GBC into an area around EGO received while the station is inside it; before the timer
@@ -486,7 +611,7 @@ def gen_single(rng, n_ops):
             kw["area"] = (centre[0], centre[1], rng.choice([50, 300, 1500, 2500]), rng.choice([50, 300, 1500, 2500]), 0)
         if kind in ("guc", "ls_reply"):
             de = rng.choice([me, own[1], rng.choice(srcs), third])
-            kw["de"] = spv(de, now + rng.randrange(-3000, 3000), 7, 8)
+            kw["de"] = spv(de, now + rng.randrange(-3000, 3000), rng.choice([7, -7]), rng.choice([8, -80000]))
         if kind == "ls_request":
             kw["de"] = rng.choice([me, own[1], rng.choice(srcs), third])
         fr = frame(kind, so, **kw)
@@ -495,13 +620,13 @@ def gen_single(rng, n_ops):
         ops.append(["rx", fr.hex(), T, now])
     for k in {tuple(s[1]) for s in sent[-4:]}:
         ops.append(["fire", list(k)])
-    return {"kind": "single", "cfg": cfg, "self": me, "ops": ops}
+    return {"kind": "single", "cfg": cfg, "self": me, "ops": ops, "ego": list(EGO)}
 
 
 def run_single(case, clock, with_oracle=True):
     """returns (real outputs, model lines, oracle findings [(op index, what, kf)])"""
     VTimer.stations.clear()
-    st = Station(clock, case["cfg"], case["self"])
+    st = Station(clock, case["cfg"], case["self"], tuple(case.get("ego", EGO)))
     orc = StationOracle(case["self"], case["cfg"])
     outs, lines, bad = [], [], []
     cfg = case["cfg"]
@@ -511,11 +636,18 @@ def run_single(case, clock, with_oracle=True):
         if op[0] == "ego":
             st.ego(op[1], op[2], op[3], op[4], op[5])
             continue
+        table = False
         if op[0] == "rx":
             fr = bytes.fromhex(op[1])
             out, entries, line, d = st.rx(fr, op[3])
             if with_oracle:
-                orc.rx(fr, d, op[2], op[3], entries)
+                orc.rx(fr, d, op[2], op[3], entries, int(line.split(" ")[17]))
+            table = d["kind"] == "ls_reply" or (i * 7 + len(op[1])) % 19 == 0
+        elif op[0] == "lsreq":
+            out, entries, line = st.lsreq(op[1], op[2], op[3])
+            if with_oracle:
+                orc.lsreq(op[1], op[2])
+            table = True
         else:
             key = (op[1][0], op[1][1])
             out, entries, line = st.fire(key)
@@ -523,6 +655,10 @@ def run_single(case, clock, with_oracle=True):
                 orc.fire(key, entries)
         outs.append(out)
         lines.append(line)
+        if table:
+            # location table (incl. the ls_pending flags) after Location Service steps and now and then otherwise
+            outs.append(st.dump())
+            lines.append("table")
         for what, kf in orc.bad:
             bad.append((i, what, kf))
         orc.bad = []
@@ -564,8 +700,22 @@ def check_single(ctx, case, clock, use_model=True):
     if use_model and ctx.model_ok:
         ctx.extra.setdefault("_batch", []).append((case, outs, lines))
     ctx.cover("op_ego", sum(1 for op in case["ops"] if op[0] == "ego"))
+    ctx.cover("pdr_reference_checked", orc.pdr_checked)
+    ctx.cover("tolerance_skips", orc.pdr_skips)
+    for w in orc.pdr_bad[:1]:
+        ctx.mismatch("router.pdr_reference", {"case": case}, w, "annex B.2 reference")
+    if tuple(case.get("ego", EGO))[1] < 0:
+        ctx.cover("scene_negative_coordinates")
     for line, out in zip(lines[1:], outs[1:]):
         t = line.split(" ")
+        if t[0] == "table":
+            ctx.cover("op_table")
+            continue
+        if t[0] == "lsreq":
+            ctx.cover("op_lsreq")
+            for a in out.split(" # ")[0].split(" | "):
+                ctx.cover("act_" + a.split(" ")[0])
+            continue
         ctx.cover("op_" + (t[1] if t[0] == "rx" else "fire"))
         for a in out.split(" # ")[0].split(" | "):
             ctx.cover("act_" + a.split(" ")[0])
@@ -612,48 +762,82 @@ def gen_topo(rng):
     for o in rng.sample(range(n), rng.randrange(1, 4)):
         floods.append(dict(kind=rng.choice(["tsb", "gbc", "tsb", "gbc", "ls_request"]), origin=o, sn=rng.randrange(65536),
                            rhl=rng.choice([1, 2, 3, n, 10, 255]), dup_origin=rng.random() < 0.3))
+    if rng.random() < 0.2:
+        # a second packet of the same origin: with a short duplicate packet list the window hypothesis of the network
+        # theorem fails at stations that hear both, and the global bounds are then not claimed
+        f0 = floods[0]
+        floods.append(dict(kind=rng.choice(["tsb", "gbc"]), origin=f0["origin"], sn=(f0["sn"] + 1) % 65536,
+                           rhl=rng.choice([2, 3, n, 10]), dup_origin=False))
+    medium = rng.choice(["ideal", "ideal", "ideal", "lossy", "dup"])
     return {"kind": "topo", "n": n, "shape": shape, "adj": {str(k): v for k, v in adj.items()}, "cfg": cfg, "floods": floods,
-            "seed": rng.randrange(1 << 30), "beacons": rng.random() < 0.7}
+            "seed": rng.randrange(1 << 30), "beacons": rng.random() < 0.7, "medium": medium}
+
+
+def flood_hyp(n, dpl, lifetime_ms, a, sn, B, lim, rx_log):
+    """the hypotheses of Props.C06.network_flood_at_most_once (FloodHyp), transcribed independently of the model for stations
+    that start with empty tables and buffers: every reception happens inside the clock window [B, B + 2^31) and not after
+    `lim`; every packet of `a` carries a position timestamp T in the window with lim <= T + lifetime (the entry of `a` cannot
+    expire before `lim`); every station receives at most dpl - 1 multi-hop packets of `a` with another sequence number"""
+    for j in range(n):
+        others = 0
+        for d, T, now in rx_log[j]:
+            if not (B <= now < B + HALF and now <= lim):
+                return False
+            if d["so"] == a:
+                if not (B <= T < B + HALF and lim <= T + lifetime_ms):
+                    return False
+                if d["kind"] in MULTI and d["sn"] != sn:
+                    others += 1
+        if dpl < 1 or others > dpl - 1:
+            return False
+    return True
 
 
 def run_topo(case, clock):
-    """runs the flood(s) to quiescence; returns (per-station (outs, lines)), findings, stats"""
+    """Runs the flood(s) on real routers over an in-memory ether that has exactly the structure of the Lean network model
+    (`FlexModel/Geo/Net.lean`): the air is a list of (destination, frame, hops made); one step delivers the j-th entry, fires
+    a CBF timer or loses an entry; every frame a station transmits is appended once per receiver chosen by the medium.
+    Returns (expected model outputs, model lines, findings, stats)."""
     import random as _random
     rng = _random.Random(case["seed"])
     VTimer.stations.clear()
     n, cfg = case["n"], case["cfg"]
+    medium = case.get("medium", "ideal")
     adj = {int(k): v for k, v in case["adj"].items()}
     addrs = [addr_int(20 + i) for i in range(n)]
     pos = [(EGO[0] + 25000 * i, EGO[1]) for i in range(n)]
     sts = [Station(clock, cfg, addrs[i], pos[i]) for i in range(n)]
     orcs = [StationOracle(addrs[i], cfg) for i in range(n)]
-    outs = [["ok"] for _ in range(n)]
-    lines = [[f"cfg {addrs[i]} {cfg['lifetime_s'] * 1000} {cfg['dpl']} {cfg['cbf']}"] for i in range(n)]
+    life = cfg["lifetime_s"] * 1000
+    outs = ["ok"] + ["ok"] * n
+    lines = ["nreset"] + [f"nnode {addrs[i]} {life} {cfg['dpl']} {cfg['cbf']}" for i in range(n)]
     bad, now = [], cfg["base"]
-    queue = []           # (frame, sender index, real time of the SO PV)
-    tx_count = {}        # (station, so, sn) -> transmissions
+    air = []             # entries [dest, frame, hops, real time of the SO PV]
+    buf_hops = {}        # (station, key) -> hops the buffered copy will have made when sent
+    tx_count, dl_count = {}, {}   # (station, so, sn) -> transmissions / deliveries to the upper layer
+    rx_log = [[] for _ in range(n)]
+    B = cfg["base"] - 10000
 
-    def deliver(fr, sender, T):
-        nonlocal now
-        for j in adj[sender]:
-            now += rng.randrange(0, 3)
-            out, entries, line, d = sts[j].rx(fr, now)
-            orcs[j].rx(fr, d, T, now, entries)
-            outs[j].append(out)
-            lines[j].append(line)
-            for e in entries:
-                if e[0] == "send":
-                    q = decode(e[1])
-                    tx_count[(j, q["so"], q["sn"], q["kind"])] = tx_count.get((j, q["so"], q["sn"], q["kind"]), 0) + 1
-                    queue.append((e[1], j, T))
-            for what, kf in orcs[j].bad:
-                bad.append((what, kf))
-            orcs[j].bad = []
+    def receivers(i):
+        r = list(adj[i])
+        if medium == "lossy":
+            r = [j for j in r if rng.random() < 0.8]
+        elif medium == "dup" and r and rng.random() < 0.3:
+            r.insert(rng.randrange(len(r) + 1), rng.choice(r))
+        return r
+
+    def originate(fr, o, T):
+        d = decode(fr)
+        for j in adj[o]:
+            air.append([j, fr, 0, T])
+            lines.append(f"nair {j} " + pkt_str(dict(d, tst=T)))
+            outs.append("ok")
 
     if case["beacons"]:
         for i in range(n):
-            deliver(frame("beacon", lpv(addrs[i], now, pos[i][0], pos[i][1])), i, now)
-    steps, limit = 0, 0
+            originate(frame("beacon", lpv(addrs[i], now, pos[i][0], pos[i][1])), i, now)
+    limit = 0
+    floods = []
     for fl in case["floods"]:
         o = fl["origin"]
         kw = dict(sn=fl["sn"], rhl=fl["rhl"], mhl=max(fl["rhl"], 10), payload=b"flood")
@@ -663,46 +847,123 @@ def run_topo(case, clock):
         if fl["kind"] == "ls_request":
             kw["de"] = addr_int(999)
         fr = frame(fl["kind"], lpv(addrs[o], now, pos[o][0], pos[o][1]), **kw)
-        queue.append((fr, o, now))
+        originate(fr, o, now)
         if fl["dup_origin"]:
-            queue.append((fr, o, now))
-        limit += 4 * n * (fl["rhl"] + 2) + 20
-    while steps < limit + 50:
+            originate(fr, o, now)
+        floods.append((addrs[o], fl["sn"], fl["rhl"], o))
+        limit += n * (4 * n * (fl["rhl"] + 2) + 20)
+    limit += 50 + 2 * n * n
+    flood_h = {(a, sn): h for a, sn, h, _ in floods}
+
+    def hop_check(d, hops, what):
+        h = flood_h.get((d["so"], d["sn"]))
+        if h is not None and d["kind"] in MULTI and d["rhl"] + hops != h:
+            bad.append((f"{what}: copy of ({d['so']},{d['sn']}) carries RHL {d['rhl']} after {hops} hop(s), originated with {h}", None))
+
+    def put_on_air(i, entries, hops, T):
+        new = []
+        rcv = receivers(i)
+        for e in entries:
+            if e[0] != "send":
+                continue
+            q = decode(e[1])
+            if q["so"] == addrs[i]:
+                continue                  # originated by the station itself (LS reply): not part of the network model
+            k = (i, q["so"], q["sn"])
+            tx_count[k] = tx_count.get(k, 0) + 1
+            hop_check(q, hops, f"station {i} transmitted")
+            for j in rcv:
+                air.append([j, e[1], hops, T])
+                new.append(f"{j}:{hops}")
+        return rcv, " ".join(new)
+
+    def hops_query():
+        for a, sn, h, _ in floods:
+            ok = all(not (decode(x[1])["so"] == a and decode(x[1])["sn"] == sn) or decode(x[1])["rhl"] + x[2] == h for x in air)
+            for i in range(n):
+                cause = orcs[i].armed.get((a, sn))
+                if cause is not None and cause[3] - 1 + buf_hops.get((i, (a, sn)), 0) != h:
+                    ok = False
+            lines.append(f"nhops {a} {sn} {h}")
+            outs.append(str(int(ok)))
+
+    steps = 0
+    query_at = rng.randrange(1, 12)
+    while steps < limit:
         pending = [(i, k) for i in range(n) for k in list(sts[i].timers)]
-        if not queue and not pending:
-            break
+        dead = [(i, k) for i in range(n) for k in list(sts[i].dead)]
+        if (not air and not pending) or bad:
+            break                  # quiescent - or the oracle already has a finding (the rest of the run adds nothing)
         steps += 1
-        if queue and (not pending or rng.random() < 0.7):
-            fr, sender, T = queue.pop(rng.randrange(len(queue)) if rng.random() < 0.3 else 0)
-            deliver(fr, sender, T)
+        if steps == query_at:
+            hops_query()
+        x = rng.random()
+        if air and medium == "lossy" and x < 0.05:
+            j = rng.randrange(len(air))
+            air.pop(j)
+            lines.append(f"nlose {j}")
+            outs.append(f"none | air {len(air)}")
+        elif air and (not pending or x < 0.7):
+            j = rng.randrange(len(air)) if rng.random() < 0.3 else 0
+            i, fr, hops, T = air.pop(j)
+            now += rng.randrange(0, 3)
+            out, entries, line, d = sts[i].rx(fr, now)
+            orcs[i].rx(fr, d, T, now, entries)
+            rx_log[i].append((d, T, now))
+            hop_check(d, hops, f"station {i} received")
+            for e in entries:
+                if e[0] == "arm":
+                    buf_hops[(i, e[1])] = hops + 1
+            k = (i, d["so"], d["sn"])
+            if d["kind"] in MULTI:
+                dl_count[k] = dl_count.get(k, 0) + sum(1 for e in entries if e[0] == "deliver")
+            rcv, new = put_on_air(i, entries, hops + 1, T)
+            env = " ".join(line.split(" ")[15:21])
+            lines.append(f"nrx {j} {env} {now} " + " ".join(map(str, rcv)))
+            outs.append(f"st {i} | rx {pkt_str(d)} hops {hops} | {out} | new {new} | air {len(air)} | "
+                        f"tx {tx_count.get(k, 0)} dl {dl_count.get(k, 0)}")
         else:
-            i, key = pending[rng.randrange(len(pending))]
+            # a pending timer expires - or, now and then, one that was cancelled (expiry racing with the cancellation)
+            i, key = dead[rng.randrange(len(dead))] if dead and (not pending or rng.random() < 0.15) else pending[rng.randrange(len(pending))]
             out, entries, line = sts[i].fire(key)
             orcs[i].fire(key, entries)
-            outs[i].append(out)
-            lines[i].append(line)
-            for e in entries:
-                if e[0] == "send":
-                    q = decode(e[1])
-                    tx_count[(i, q["so"], q["sn"], q["kind"])] = tx_count.get((i, q["so"], q["sn"], q["kind"]), 0) + 1
-                    queue.append((e[1], i, now))
+            rcv, new = put_on_air(i, entries, buf_hops.get((i, key), 0), now)
+            k = (i, key[0], key[1])
+            lines.append(f"nfire {i} {key[0]} {key[1]} " + " ".join(map(str, rcv)))
+            outs.append(f"st {i} | fire {key[0]} {key[1]} | {out} | new {new} | air {len(air)} | "
+                        f"tx {tx_count.get(k, 0)} dl {dl_count.get(k, 0)}")
+        for i in range(n):
             for what, kf in orcs[i].bad:
                 bad.append((what, kf))
             orcs[i].bad = []
-    if queue or any(sts[i].timers for i in range(n)):
-        bad.append((f"flood did not terminate within {limit + 50} ether steps ({len(queue)} frames still in flight)", None))
-    for (j, so, sn, kind), c in tx_count.items():
-        if c > 1:
-            bad.append((f"station {j} transmitted {kind} ({so},{sn}) {c} times", None))
-        if so == addrs[j]:
-            bad.append((f"station {j} re-transmitted its own packet ({so},{sn})", None))
-    per_flood = {}
-    for (j, so, sn, kind), c in tx_count.items():
-        per_flood[(so, sn, kind)] = per_flood.get((so, sn, kind), 0) + c
-    for k, c in per_flood.items():
-        if c > n - 1:
-            bad.append((f"flood {k}: {c} re-transmissions in a network of {n} stations", None))
-    return outs, lines, bad, dict(steps=steps, tx=sum(tx_count.values()))
+    if not bad and (air or any(sts[i].timers for i in range(n))):
+        bad.append((f"flood did not terminate within {limit} ether steps ({len(air)} frames still in flight)", None))
+    hops_query()
+    # the network-level claim (Props.C06.network_flood_at_most_once), judged on the real routers
+    lim = now
+    hyp_true = attained = 0
+    for a, sn, h, o in floods:
+        hyp = flood_hyp(n, cfg["dpl"], life, a, sn, B, lim, rx_log)
+        hyp_true += hyp
+        tx = [tx_count.get((j, a, sn), 0) for j in range(n)]
+        dl = [dl_count.get((j, a, sn), 0) for j in range(n)]
+        lines.append(f"ncount {a} {sn}")
+        outs.append("tx " + " ".join(map(str, tx)) + " | dl " + " ".join(map(str, dl)) + f" | total {sum(tx)}")
+        lines.append(f"nhyp {a} {sn} {B} {lim}")
+        outs.append(str(int(hyp)))
+        if tx[o] or dl[o]:
+            bad.append((f"station {o} re-transmitted / delivered its own packet ({a},{sn}): tx {tx[o]}, deliveries {dl[o]}", None))
+        if hyp:
+            for j in range(n):
+                if tx[j] > 1:
+                    bad.append((f"station {j} transmitted ({a},{sn}) {tx[j]} times", None))
+                if dl[j] > 1:
+                    bad.append((f"station {j} delivered ({a},{sn}) {dl[j]} times", None))
+            attained += sum(tx) == n - 1
+            if sum(tx) > n - 1:
+                bad.append((f"flood ({a},{sn}): {sum(tx)} re-transmissions in a network of {n} stations", None))
+    return outs, lines, bad, dict(steps=steps, tx=sum(tx_count.values()), hyp_true=hyp_true, hyp_false=len(floods) - hyp_true,
+                                 attained=attained)
 
 
 def check_topo(ctx, case, clock, use_model=True):
@@ -711,13 +972,13 @@ def check_topo(ctx, case, clock, use_model=True):
     for what, kf in bad[:1]:
         ctx.violation(what, case, kf)
     if use_model and ctx.model_ok:
-        ls, os_ = [], []
-        for i in range(case["n"]):
-            ls += [f"sel {i}"] + lines[i]
-            os_ += ["ok"] + outs[i]
-        ctx.extra.setdefault("_batch", []).append((case, os_, ls))
+        ctx.extra.setdefault("_batch", []).append((case, outs, lines))
     ctx.cover(f"topo_{case['shape']}_{case['n']}")
+    ctx.cover(f"topo_medium_{case.get('medium', 'ideal')}")
     ctx.cover("topo_transmissions", stats["tx"])
+    ctx.cover("flood_hyp_true", stats["hyp_true"])
+    ctx.cover("flood_hyp_false", stats["hyp_false"])
+    ctx.cover("flood_bound_n_minus_1_attained", stats["attained"])
     ctx.nontrivial(("topo", case["seed"]))
 
 
@@ -776,6 +1037,8 @@ def search(ctx):
                 inp = m.get("input")
                 if isinstance(inp, dict) and isinstance(inp.get("case"), dict) and inp["case"].get("kind") == "single":
                     check_single(ctx, inp["case"], clock, use_model=False)
+                elif isinstance(inp, dict) and isinstance(inp.get("case"), dict) and inp["case"].get("kind") == "topo":
+                    check_topo(ctx, inp["case"], clock, use_model=False)
             for _ in range(ctx.scale(750, 30000)):
                 if ctx.violations:
                     break
@@ -799,7 +1062,7 @@ def replay(ctx, obj):
             return any(kf is None or kf not in known for _, _, kf in bad)
         if case.get("kind") == "topo":
             _, _, bad, stats = run_topo(case, clock)
-            for what, kf in bad:
+            for what, kf in bad[:20]:
                 print(what + (f" [{kf}]" if kf else ""))
             print(stats)
             return any(kf is None or kf not in known for _, kf in bad)
